@@ -251,11 +251,67 @@ def units(tier, seed):
     for i in range(0, len(s3), step):
         us.append({"stacks": s3[i : i + step], "len": 3, "vals": [0.0, 0.5, 0.75, 10.0], "inner": "user", "shapes": True})
         us.append({"stacks": s3[i : i + step], "len": 3, "vals": [0.0, 0.5, 0.75, 10.0], "inner": "function", "shapes": True})
+    us.append({"kind": "long", "n": 72000, "cutoff": 70000})
+    us.append({"kind": "long", "n": 34000, "cutoff": 40000})
     return us
+
+
+def long_sequence(res, n_calls, cutoff):
+    """Beyond the small scope: tens of thousands of calls through one stack (narrow integer counters, bounded buffers)."""
+    from pyhms.core.problem import EvalCountingProblem, EvalCutoffProblem, FunctionProblem, PrecisionCutoffProblem, StatsGatheringProblem
+
+    for mx in (False, True):
+        calls = [0]
+
+        def f(x):
+            calls[0] += 1
+            return 5.0 if calls[0] != cutoff - 2000 else 0.0  # the optimum is hit exactly once, late
+
+        fp = FunctionProblem(f, bounds=np.array([(-1.0, 2.0), (3.0, 4.5)]), maximize=mx)
+        count_in = EvalCountingProblem(fp)
+        stats = StatsGatheringProblem(count_in)
+        prec = PrecisionCutoffProblem(stats, 0.0, 0.5)
+        cut = EvalCutoffProblem(prec, cutoff)
+        top = EvalCountingProblem(cut)
+        x = np.array([0.5, 3.5])
+        worst = -math.inf if mx else math.inf
+        rep = {"check": ID, "unit": {"kind": "long"}, "desc": {"long": [n_calls, cutoff], "maximize": mx}, "dev": []}
+        bad = None
+        for i in range(1, n_calls + 1):
+            got = top.evaluate(x)
+            want = worst if i > cutoff else (0.0 if i == cutoff - 2000 else 5.0)
+            if got != want:
+                bad = ("C16/returned-value:long-sequence", f"call {i} of {n_calls} (cutoff {cutoff}) returned {got!r}, reference {want!r}")
+                break
+        res.executions += 1
+        fwd = min(n_calls, cutoff)
+        if bad is None:
+            for name, o, wantn in (("counting(outer)", top, n_calls), ("cutoff", cut, fwd), ("precision", prec, fwd), ("stats", stats, fwd), ("counting(inner)", count_in, fwd)):
+                if o.n_evaluations != wantn:
+                    bad = (f"C16/counter:long-sequence:{name.split('(')[0]}", f"{name} wrapper reports {o.n_evaluations} evaluations after {n_calls} calls (cutoff {cutoff}), reference {wantn}")
+                    break
+        if bad is None and calls[0] != fwd:
+            bad = ("C16/objective-invocations:long-sequence", f"objective invoked {calls[0]} times, reference {fwd}")
+        eta = cutoff - 2000 if n_calls >= cutoff - 2000 else math.inf
+        if bad is None and (prec.ETA != eta or bool(prec.hit_precision) != (eta != math.inf)):
+            bad = ("C16/precision-bookkeeping:long-sequence", f"precision wrapper ETA={prec.ETA} hit={prec.hit_precision}, reference ETA={eta}")
+        if bad is None and len(stats.durations) != fwd:
+            bad = ("C16/stats-durations:long-sequence", f"stats wrapper holds {len(stats.durations)} durations after {fwd} forwarded calls")
+        if bad is not None:
+            res.add_violation(ID, bad[0], bad[1], {}, rep)
+        res.flags["long call sequence"] += 1
+        res.states.add(h64(("long", n_calls, cutoff, mx)))
 
 
 def run_unit(unit):
     res = Result()
+    if unit.get("kind") == "long":
+        long_sequence(res, unit["n"], unit["cutoff"])
+        res.configs += 1
+        res.configs_completed += 1
+        res.status["ok"] += res.executions
+        res.by_bound[0] += res.executions
+        return res
     for kinds in unit["stacks"]:
         kinds = tuple(kinds)
         for mx in (False, True):
@@ -279,6 +335,9 @@ def finish(res, tier):
 def replay(rep):
     d = rep["desc"]
     res = Result()
+    if "long" in d:
+        long_sequence(res, d["long"][0], d["long"][1])
+        return res.violations
     mx = d["maximize"]
     sgn = -1.0 if mx else 1.0
     base = [sgn * v for v in d["values"]]
